@@ -218,7 +218,11 @@ func (te *treeEnv) edgeAttrs(pos string, n int) []slog.Attr {
 func (te *treeEnv) evalTree(nodes []tnode, labels []int, tpl, order int) (class, what string, handles int) {
 	oi := tplOpts[tpl]
 	o := optsTable[oi]
-	e := newEnv(o)
+	e, bad := newEnv(o)
+	if e == nil {
+		return "panic", bad, 0
+	}
+
 	hs := make([]slog.Handler, len(nodes))
 	pathKey := make([]string, len(nodes))
 
@@ -384,7 +388,7 @@ func enumTrees(c *runlib.Ctx, sh func() *enum.Sharder) {
 		case c.Quick():
 			passes = []pass{{"trees-large-counts-0..1", 2, everyVariant}}
 		default:
-			heavy := []variant{{1, 0}, {2, 1}}
+			heavy := []variant{{1, 0}}
 			var light []variant
 			for _, v := range everyVariant {
 				if !slices.Contains(heavy, v) {
